@@ -293,24 +293,41 @@ def rule_consumers(ctx, repo):
 
     # refresh_inputs_arg binds names through self._input[arg] for every arg table
     ci, fn = repo.method("Model", "refresh_inputs_arg", MODEL)
-    direct = {k for k in ("f_args", "g_args", "sns_args")
-              if Q.has("self.%s = [self._input[$a] for $a in self.calls.%s]" % (k, k), fn)}
-    mapped = set()
-    for n in walk_noscope(fn):
-        if isinstance(n, ast.Dict):
-            for k, v in zip(n.keys, n.values):
-                if isinstance(k, ast.Constant) and dotted(v) == "self." + str(k.value):
-                    mapped.add(k.value)
-    okm = False
-    for lp, e in Q.loops(fn, "$mp.items()", "($key, $val)"):
-        e1 = Q.first("$source = self.calls.__dict__[$key]", lp, e)[1]
-        if e1 and Q.has("$val[$name] = [self._input[$a] for $a in $source[$name]]", lp, e1):
-            okm = True
-    need_m = {"j_args", "s_args", "ia_args", "ii_args", "ij_args"}
-    miss = ({"f_args", "g_args", "sns_args"} - direct) | (need_m - mapped if okm else need_m)
-    ctx.check(not miss, "C02.consumer", "Model.refresh_inputs_arg",
-              "all 8 argument tables bound by name", "argument tables not bound by name through self._input: %s" % sorted(miss),
-              repo.W(ci, fn))
+    # decided by evaluation (engine/tinyexec.py): a stand-in model whose inputs are tags and whose `calls` tables list argument names
+    from engine.tinyexec import TinyExec, Fake
+    from engine.ordertype import Unsupported
+
+    class _Obj(Fake):
+        pass
+    mdl, calls = _Obj(), _Obj()
+    mdl._input = {nm: ("input", nm) for nm in ("a", "b", "c", "d", "u")}
+    calls.f_args, calls.g_args, calls.sns_args = ["b", "a"], ["c"], ["u", "d", "a"]
+    calls.j_args = {"fx0": ["a", "c"], "gy1": ["b"]}
+    calls.s_args = {"s1": ["d", "u"], "s2": []}
+    calls.ia_args = {"v1": ["a"]}
+    calls.ii_args = {"v2": ["b", "d"]}
+    calls.ij_args = {"v2": ["c"]}
+    mdl.calls = calls
+    for k_ in ("j_args", "s_args", "ia_args", "ii_args", "ij_args"):
+        setattr(mdl, k_, {"stale": ["x"]})
+    miss = []
+    try:
+        TinyExec(repo, "Model", MODEL, stubs={"OrderedDict": dict}).call("refresh_inputs_arg", mdl)
+        for k_ in ("f_args", "g_args", "sns_args"):
+            if getattr(mdl, k_, None) != [("input", x) for x in getattr(calls, k_)]:
+                miss.append("%s = %s" % (k_, getattr(mdl, k_, None)))
+        for k_ in ("j_args", "s_args", "ia_args", "ii_args", "ij_args"):
+            want = {fn_: [("input", x) for x in names] for fn_, names in getattr(calls, k_).items()}
+            got = getattr(mdl, k_, None)
+            if not isinstance(got, dict) or any(got.get(fn_) != w_ for fn_, w_ in want.items()):
+                miss.append("%s = %s" % (k_, got))
+    except Unsupported as ex:
+        ctx.undecided("C02.consumer", "Model.refresh_inputs_arg", "evaluator: %s" % ex, repo.W(ci, fn))
+        miss = None
+    if miss is not None:
+        ctx.check(not miss, "C02.consumer", "Model.refresh_inputs_arg",
+                  "all 8 argument tables bound by name", "argument tables not bound by name through self._input: %s" % sorted(miss),
+                  repo.W(ci, fn))
 
     # refresh_inputs keys by instance.name / get_names over the registries providable() assumes
     ci, fn = repo.method("Model", "refresh_inputs", MODEL)
